@@ -12,56 +12,84 @@ from lib import common
 from lib.common import COQ, REPO, VERIF, sh, src_hashes, write_if_changed
 
 PID = "C01"
-RULE = ("gen: ast translator over every module of the package -> call sites of raising callees with their handlers, "
-        "raise statements, interpreter MRO (coq/Gen/ExcFlow.v); correspondence: fault injection - for every (site, "
-        "class of raises(callee)) pair of an in-scope site the callee is made to raise that class at that call "
-        "(frame-checked patch) while a driver document is parsed, and the outcome (document returned vs exception "
-        "escapes) is compared with predict(site, class) as computed by the Coq definitions; crafted bad inputs with a "
-        "recorder check that the class a library really raises is below raises(callee); search: grammar-generated "
-        "MyST documents + token soup x sampled configurations x docutils/Sphinx front ends x file-system faults, "
-        "oracle = no exception escapes and a document is returned, failures bucketed by exception class + innermost "
-        "myst_parser frame; non-trivial = an injected pair whose site was reached, or a generated document that "
-        "produced at least one warning")
+RULE = ("gen (every run): ast translators over every module of the package -> coq/Gen/ExcFlow.v (every call of a raising callee - "
+        "closed world for builtins and imported stdlib / third-party functions - plus, in the transform phase, every subscript / "
+        "list.remove / Element.replace; the enclosing handlers; every raise statement; every except clause with what its body does; "
+        "the interpreter's MRO) and coq/Gen/GuardSrc.v (the sub_references and include_log guard code translated statement by "
+        "statement); correspondence: the prediction table is evaluated by coqc; for every (site, class of raises(callee)) pair of a "
+        "checked/open site the callee is made to raise that class exactly at that call (frame-checked patch) while driver documents "
+        "are parsed through both front ends, and 'document returned' must equal predict(site, class); 40 crafted bad inputs run with a "
+        "recorder: the class the library really raises must be below raises(callee) and the outcome must equal the prediction; the "
+        "whitelisted transform-phase subscripts are observed to execute without raising; search: 238 fixed file-system-fault cases "
+        "(every way a document names a file x fault x front end; inventories x fault), fixed witnesses of every finding, then "
+        "grammar-generated MyST documents + token soup x sampled configurations (subsets of the extensions, commonmark mode, "
+        "front-matter overrides, 20 other options) x docutils / Sphinx (read phase + post-transforms), 16 workers, per-case timeout; "
+        "oracle = no exception escapes and a document is returned; signature = exception class + innermost myst_parser frame "
+        "(+ qualified library frame); a new signature is confirmed in a fresh interpreter and shrunk; non-trivial = an injected pair "
+        "whose site was reached, or a generated document that produced at least one warning")
 TRUSTED = [
-    "coq/Exc/ExcFlow.v table 'raises' (callee -> exception classes, from the libraries' documentation and source): "
-    "yaml.safe_load, int, float, chr, ord, open, Path.read_text, Path.is_file, os.path.relpath, urlopen, import_module, "
-    "getattr, urlparse, parselinenos, json.dumps, json.loads, zlib, bytes.decode, stream.read, docutils Lexer, option "
-    "converters, tokenize_html, HTMLParser.feed, options_to_items, parse_directive_text, fetch_inventory, read_topmatter, "
-    "validate_field, MdParserConfig(), slug functions, token_line, directive.run, role functions, jinja render/parse, "
-    "Sphinx make_refnode / domain.resolve_* / events.emit, list.index, sorted, max/min, next, re.compile",
-    "coq/Exc/ExcFlow.v tables 'declared', 'whitelist' (each entry with a justification string), 'out_scope'",
-    "gen/c01_guards.py: the mapping of the Python set/list operations on the guard state (intersection, update, "
-    "difference_update, append, pop, in, truthiness) to the py_* primitives of coq/Exc/CoreModel.v, and the abstraction of the "
-    "nested render to a function parameter",
-    "the curated callee recognition of gen/c01_excflow.py (RAISING_* / TOTAL_* tables): a builtin or an imported "
-    "stdlib/third-party function that is in neither table stops the translation; method calls on objects are sites only "
-    "for the listed method names; subscripts, attribute access and arithmetic are not sites",
-    "exceptions raised inside markdown-it-py, mdit-py-plugins, docutils transforms, Sphinx, pygments and Jinja internals "
-    "are outside every model: for those the claim rests on the search only",
+    "coq/Exc/ExcFlow.v table 'raises' (callee key -> exception classes, from the libraries' documentation and source; a class stands "
+    "for its subclasses): yaml.safe_load, int, float, chr, ord, open, Path.read_text, Path.is_file, os.path.relpath, os.access, "
+    "urlopen, import_module, getattr, urlparse, parselinenos, json.dumps/loads, zlib, bytes.decode, stream.read, docutils Lexer, "
+    "option / attribute converters, tokenize_html, HTMLParser.feed, options_to_items, parse_directive_text, fetch_inventory, "
+    "read_topmatter, validate_field, MdParserConfig(), slug functions, token_line, directive.run (DirectiveError, MockingError), role "
+    "functions (none), jinja render / parse, Sphinx make_refnode / domain.resolve_* / events.emit / env.relfn2path, list.index, sorted, "
+    "max/min, next, re.compile; transform phase: subscripts (KeyError/IndexError/TypeError), list.remove / Element.replace (ValueError)",
+    "coq/Exc/ExcFlow.v tables 'declared' (functions that let classes escape to their recorded call sites), 'whitelist' (72 sites that "
+    "cannot raise, each with its invariant), 'out_scope' (CLI / docs tooling / docutils option validators), 'raise_whitelist', "
+    "'silent_ok' (18 except clauses that neither report nor re-raise, each justified)",
+    "gen/c01_excflow.py: the curated callee recognition (RAISING_* / TOTAL_* tables; a builtin or imported stdlib / third-party "
+    "function in neither table stops the translation; method calls on objects are sites only for the listed method names; outside the "
+    "transform phase subscripts, attribute access and arithmetic are not sites)",
+    "gen/c01_guards.py: the mapping of the Python set/list operations on the guard state (intersection, update, difference_update, "
+    "append, pop, in, truthiness) to the py_* primitives of coq/Exc/CoreModel.v, and the abstraction of the nested render to a "
+    "function parameter",
+    "exceptions and non-termination inside markdown-it-py, mdit-py-plugins, docutils transforms and directives, Sphinx, pygments and "
+    "Jinja are outside every model: for those the claim rests on the search only",
 ]
 ORACLES = {
-    "O_raises": "raises(callee) is complete for the listed callees: exercised by the crafted-input recorder of the "
-                "correspondence (the class observed at the callee must be below a listed class) and by the search",
-    "O_directive_contract": "third-party directive / role code raises only DirectiveError (or returns system messages); "
-                            "the mocked state raises MockingError: search over every registered docutils/Sphinx directive and role",
-    "O_token_map": "markdown-it sets token.map on every block token and _render_tokens propagates it to inline children "
-                   "(token_line without default): search",
+    "O_raises": "raises(callee) is complete for the listed callees: the crafted-input recorder of the correspondence (the class observed "
+                "at the callee must be below a listed class; it corrected the table twice: option converters raise AttributeError, "
+                "env.relfn2path raises ValueError) and the search",
+    "O_directive_contract": "third-party directive / role code raises only DirectiveError (or returns system messages); the mocked state "
+                            "raises MockingError: search over every registered docutils / Sphinx directive and role with their own option "
+                            "names (violations found are findings: figure, productionlist, target-notes, raw, csv-table)",
+    "O_token_map": "markdown-it sets token.map on every block token and _render_tokens propagates it to inline children (token_line "
+                   "without default): search",
     "O_heading_tag": "heading tokens have tag h1..h6: search",
-    "O_libraries_total": "markdown-it, docutils transforms and Sphinx read phase do not raise on the doctrees MyST produces: search only",
+    "O_propagate_targets": "docutils gives a target a refid only together with moving its names to the referenced node (ResolveAnchorIds, "
+                           "same statement as Sphinx' StandardDomain.process_doc): search over (x)= targets and eval-rst indirect targets",
+    "O_libraries_total": "markdown-it, docutils transforms and the Sphinx read phase do not raise on the doctrees MyST produces: search only "
+                         "(open findings show where they do)",
 }
-ASSUMPTIONS = ["recursion limit, OS path limits and memory are runtime behaviour outside the models",
-               "the writers (HTML/LaTeX translators) are outside the statement: the Sphinx cases run the read phase and the post-transforms"]
-LEVEL_TEXT = ("Proof (Coq) over tables regenerated from the source on every run: every call site of a raising callee in the "
-              "package is out of scope, whitelisted with a justification, or checked - each class of "
-              "raises(callee) is caught by an enclosing handler or declared to escape to call sites that are themselves checked "
-              "(C01_sites_covered, C01_site_check_sound, C01_raise_statements_declared, C01_tables_consistent); component totality in small models: max() in "
-              "update_section_level_state is never over an empty set, and {include}/substitution re-entrancy is bounded by the "
-              "number of distinct keys (C01_core_total, with the two refutations of the unguarded variants). Tie: the "
-              "regenerated tables plus fault-injection correspondence against the implementation.")
-LEVEL_NOTE = ("Partial: the table 'raises' and the whitelist justifications are trusted (listed in the evidence); termination and "
-              "exception-freedom inside markdown-it, docutils, Sphinx, pygments, Jinja are covered by the search only; open "
-              "findings are reproduced on every run.")
-
+ASSUMPTIONS = ["recursion limit, OS path limits and memory are runtime behaviour outside the models (an include of /dev/zero or a FIFO reads "
+               "without end exactly as docutils' own include does: observation, guarded by file_insertion_enabled)",
+               "the writers (HTML/LaTeX translators) are outside the statement: the Sphinx cases run the read phase and the post-transforms",
+               "linkify-it-py is not importable here: the linkify extension and gfm_only are never sampled",
+               "the sandbox user is root: permission-denied faults cannot be produced"]
+LEVEL_TEXT = ("Proof (Coq, 11 theorems, all closed) over tables and code REGENERATED from the source on every run. In full: "
+              "C01_sites_covered - each of the n_sites (177 today) calls of a raising callee / transform-phase subscripts is out of scope, "
+              "whitelisted with its invariant, or checked: every class of raises(callee) is caught by an enclosing handler or declared to "
+              "escape to call sites that are checked in turn (C01_site_check_sound says what 'checked' means, without computation); "
+              "C01_raise_statements_declared (n_raise_stmts = 73 raise statements); C01_handlers_report (every except clause warns, re-raises only "
+              "declared classes, or is a justified silent fallback); C01_tables_consistent; C01_open_sites_are_uncovered (the open-site list, "
+              "empty today, can only name sites that lack a handler). Component totality: C01_core_total (max() in "
+              "update_section_level_state never over an empty set, for every heading sequence; guarded re-entrant expansion returns within "
+              "fuel |U|+1) and, on the guard code translated from render_substitution / MockIncludeDirective.run, C01_guards_refine_model and "
+              "C01_core_total_src (nesting of substitutions / includes bounded by the number of distinct names / include keys); "
+              "compute_unique_slug's loop is C10_unique_terminates. Refutations kept: C01_include_without_log_refuted (the code before "
+              "78a6e0c), C01_guard_without_key_refuted (a substitution that references no name is not stopped by the guard). Tie: the "
+              "regenerated tables and code, fault injection at every checked site, crafted-input recorder, and the search.")
+LEVEL_NOTE = ("Partial by nature: termination and exception-freedom INSIDE markdown-it-py, mdit-py-plugins, docutils, Sphinx, pygments and "
+              "Jinja are not modelled - for them the claim rests on the search (quick 8.9k, thorough 98k documents over both front ends). "
+              "Trusted: the 'raises' table, the whitelist / declared / silent_ok justifications, the translators' recognition rules. "
+              "15 open findings are reproduced on every run (KNOWN-FINDING): disable_syntax=[paragraph] hang (2) and [inline]+tasklist "
+              "IndexError (2) - core rules accepted by the validator; colon_fence plugin IndexError on '> :::' + '>' (2); '> ---' "
+              "AssertionError in docutils Transitions (C03); {figure} whose body renders to nothing; empty field name at document start "
+              "(DocInfo); empty block quote with attributes (Sphinx HandleCodeBlocks); third-party directives identical under rST: "
+              "productionlist, target-notes :name:, raw :url:, csv-table :file: undecodable (2). Repaired in /repo by this check's "
+              "builder: 22b9d98 2c319c1 a0c5ade 78a6e0c 155ac3f 0656ef0 3eadb40 f6b6c01; by others after being reported here: 782b8eb "
+              "(words_per_minute=0), 9a2ab65 (NUL in a link destination).")
 HAVE_LINKIFY = importlib.util.find_spec("linkify_it") is not None
 
 
